@@ -191,6 +191,9 @@ def run_check(check_id: str, tier: str, seed: int, workers: int | None = None) -
                 total.merge(payload)
 
     # ---- findings protocol
+    import shutil
+
+    shutil.rmtree(os.path.join(REPLAY_DIR, prop), ignore_errors=True)
     openf, fixed = load_findings(prop)
     by_sig: dict[str, list[dict]] = {}
     for v in total.violations:
